@@ -219,6 +219,16 @@ pub fn par_order(p: &mut Prng) -> String {
     }
 }
 
+/// Order string for `n` callers (letters A..): uniformly random hand-overs.
+pub fn par_order_n(p: &mut Prng, n: usize) -> String {
+    let len = p.range(n, 4 * n);
+    (0..len).map(|_| (b'A' + p.below(n as u64) as u8) as char).collect()
+}
+
+pub fn par_n(ops: Vec<Value>, order: &str) -> Value {
+    json!({"op":"par","ops":ops,"order":order})
+}
+
 pub fn par(a: Value, b: Value, order: &str) -> Value {
     json!({"op":"par","a":a,"b":b,"order":order})
 }
